@@ -7002,7 +7002,14 @@ class Device(utils.CompositeEventEmitter):
     @with_connection_from_handle
     def on_gatt_pdu(self, connection: Connection, pdu: bytes):
         # Parse the L2CAP payload into an ATT PDU object
-        att_pdu = att.ATT_PDU.from_bytes(pdu)
+        try:
+            att_pdu = att.ATT_PDU.from_bytes(pdu)
+        except Exception:
+            if pdu and not pdu[0] & 1:
+                # Malformed client->server PDU: let the server answer if it must
+                self.gatt_server.on_raw_gatt_pdu(connection, pdu)
+                return
+            raise
 
         # Conveniently, even-numbered op codes are client->server and
         # odd-numbered ones are server->client
